@@ -430,10 +430,6 @@ static const double POWER_OF_TEN_POSITIVE[23] = {1e0,  1e1,  1e2,  1e3,  1e4,  1
                                                  1e8,  1e9,  1e10, 1e11, 1e12, 1e13, 1e14, 1e15,
                                                  1e16, 1e17, 1e18, 1e19, 1e20, 1e21, 1e22};
 
-static const double POWER_OF_TEN_NEGATIVE[23] = {
-    1e-0,  1e-1,  1e-2,  1e-3,  1e-4,  1e-5,  1e-6,  1e-7,  1e-8,  1e-9,  1e-10, 1e-11,
-    1e-12, 1e-13, 1e-14, 1e-15, 1e-16, 1e-17, 1e-18, 1e-19, 1e-20, 1e-21, 1e-22};
-
 /**
  * Clinger's algorithm fast path.
  * 
@@ -453,7 +449,7 @@ static inline bool parse_double_fast(int64_t mantissa, int64_t exponent, bool ne
     double d = (double) mantissa;
 
     if (exponent < 0) {
-        d = d * POWER_OF_TEN_NEGATIVE[-exponent];
+        d = d / POWER_OF_TEN_POSITIVE[-exponent];
     } else {
         d = d * POWER_OF_TEN_POSITIVE[exponent];
     }
